@@ -223,6 +223,7 @@ def run(repo, rep, tier):
     r1 = rep.rule('C17.R1', 'exactly one response per path')
     r2 = rep.rule('C17.R2', 'no escaping exception before the response')
     property_call_rule(repo, rep)
+    early_hooks_rule(repo, rep)
     # messages built on the request path (parser errors end up in the 400
     # response): a format template that interpolates request text raises
     # KeyError / IndexError inside the handler
@@ -737,3 +738,67 @@ def property_call_rule(repo, rep):
                                 'property-called', LS, x.lineno,
                                 'WBEMListener.%s is a property and is '
                                 'called' % x.func.attr)
+
+
+# http.server.BaseHTTPRequestHandler: what exists on the handler object when
+# the base class itself answers a request whose request line it rejects
+# (parse_request() -> send_error() -> send_response() -> log_request(),
+# send_header('Server', version_string()), log_error() -> log_message()).
+# parse_request() has then set command (None), request_version, requestline,
+# close_connection; `path` is assigned only after the request line passed
+# all checks and `headers` only after the header block was parsed.
+STDLIB_EARLY_HOOKS = ('log_request', 'log_error', 'log_message',
+                      'version_string', 'send_response',
+                      'send_response_only', 'send_header', 'end_headers',
+                      'date_time_string', 'address_string',
+                      'log_date_time_string', 'flush_headers', 'send_error')
+STDLIB_LATE_ATTRS = ('path', 'headers')
+
+
+def early_hooks_rule(repo, rep):
+    """C17.R10: the methods of the request handler that the base class calls
+    while it rejects a malformed request line (logging hooks, version
+    string, overridden send_* methods) do not read `self.path` or
+    `self.headers`: those attributes do not exist yet, the AttributeError
+    ends the handler thread and the client gets no response instead of the
+    400 / 414 the base class was about to send."""
+    r10 = rep.rule('C17.R10', 'hooks the base class calls for rejected '
+                   'request lines read no handler attribute that is set '
+                   'only after successful parsing')
+    h = repo.cls(LS, 'ListenerRequestHandler')
+    over = [h.methods[n] for n in STDLIB_EARLY_HOOKS if n in h.methods]
+    if len(over) < 3:
+        raise AnalysisError('ListenerRequestHandler overrides only %d of the '
+                            'base class hooks (log_request / log_error / '
+                            'log_message / version_string expected)'
+                            % len(over))
+    seen, work = [], list(over)
+    while work:
+        f = work.pop()
+        if f in seen:
+            continue
+        seen.append(f)
+        for n in walk_no_nested(f.node):
+            if isinstance(n, ast.Call):
+                d = dotted(n.func) or ''
+                if d.startswith('self.') and d.count('.') == 1:
+                    m = h.methods.get(d[5:])
+                    if m is not None and not m.is_property():
+                        work.append(m)
+    for f in seen:
+        r10.sites += 1
+        r10.functions.add(f.fq)
+        bad = [n for n in walk_no_nested(f.node)
+               if isinstance(n, ast.Attribute) and
+               isinstance(n.value, ast.Name) and n.value.id == 'self' and
+               n.attr in STDLIB_LATE_ATTRS and isinstance(n.ctx, ast.Load)]
+        r10.ob(not bad, f.qualname)
+        for n in bad[:1]:
+            rep.finding(r10, f.qualname, norm(n), 'late-attribute', LS,
+                        n.lineno,
+                        '%s is read in a method the base class calls while '
+                        'it answers a request line it rejects (more than '
+                        'three words, too long, bad version); the attribute '
+                        'is assigned only after the request line passed '
+                        'those checks: AttributeError, the connection is '
+                        'dropped without a response' % norm(n))
